@@ -167,11 +167,38 @@ func main() {
 	for _, g := range globals {
 		require.RegisterNativeModule(g, mkLoader("global", g))
 	}
-	cores := []string{"buffer", "console", "process", "url", "util", "xcore", "node:xonly", "shared2"}
+	cores := []string{"buffer", "console", "process", "url", "util", "xcore", "node:xonly", "shared2", "cyca", "cycb", "selfy"}
 	for _, c := range []string{"xcore", "node:xonly", "shared2"} {
 		require.RegisterCoreModule(c, mkLoader("core", c))
 	}
+	// re-entrant loaders: Go loaders that call require() themselves, across the two spellings of a core name
+	loaderReqs := map[string][]string{"cyca": {"cycb"}, "cycb": {"node:cyca", "cyca"}, "selfy": {"node:selfy", "util"}}
+	for _, c := range []string{"cyca", "cycb", "selfy"} {
+		name := c
+		inner := mkLoader("core", name)
+		require.RegisterCoreModule(name, func(vm *goja.Runtime, module *goja.Object) {
+			inner(vm, module)
+			for _, q := range loaderReqs[name] {
+				prg, err := goja.Compile("__native__.js", reqJS(`"__native__.js"`, q, true), false)
+				if err != nil {
+					panic(err)
+				}
+				if _, err := vm.RunProgram(prg); err != nil {
+					panic(err)
+				}
+			}
+		})
+	}
 
+	var lrRows []string
+	for _, c := range []string{"cyca", "cycb", "selfy"} {
+		var qs []string
+		for _, q := range loaderReqs[c] {
+			qs = append(qs, lib.ZsStr(q))
+		}
+		lrRows = append(lrRows, lib.Pair(lib.ZsStr(c), lib.List(qs)))
+	}
+	loaderReqsCoq := lib.List(lrRows)
 	for c := 0; c < n; c++ {
 		files := map[string]fentry{}
 		pkgText := map[string]string{}
@@ -422,7 +449,7 @@ func main() {
 				}
 			}
 			reqs := []string{"util", "node:util", "./util", "./util.js", "gnat", "rnat", "shared", "xcore", "node:xcore", "xonly", "node:xonly", "node:gnat", "node:nope", "plain", "./plain", "buffer", "node:buffer",
-				"shared2", "node:shared2", "dir/gsub", "dir/rsub", "./gnat", "node:rnat"}
+				"shared2", "node:shared2", "dir/gsub", "dir/rsub", "./gnat", "node:rnat", "cyca", "node:cyca", "cycb", "node:cycb", "selfy", "node:selfy", "node:cyca"}
 			ncalls := 3 + r.Intn(7)
 			for i := 0; i < ncalls; i++ {
 				kind := "js"
@@ -623,8 +650,8 @@ func main() {
 		for _, k := range rk {
 			runsCoq = append(runsCoq, fmt.Sprintf("(%s, %d%%nat)", lib.ZsStr(k), kinds[k]))
 		}
-		coq := fmt.Sprintf("{| c_fs := %s; c_nat := {| n_registry := %s; n_global := %s; n_core := %s |}; c_calls := %s; c_events := %s; c_files := %s; c_evcounts := %s; c_counters := %s; c_loader_log := %s; c_native_runs := %s |}",
-			lib.List(fsCoq), zl(regNat), zl(globals), zl(cores), lib.List(callsCoq), lib.List(evCoq), lib.List(evFiles), lib.List(evCounts), lib.List(cntCoq), lib.List(logCoq), lib.List(runsCoq))
+		coq := fmt.Sprintf("{| c_fs := %s; c_nat := {| n_registry := %s; n_global := %s; n_core := %s; n_loader_reqs := %s |}; c_calls := %s; c_events := %s; c_files := %s; c_evcounts := %s; c_counters := %s; c_loader_log := %s; c_native_runs := %s |}",
+			lib.List(fsCoq), zl(regNat), zl(globals), zl(cores), loaderReqsCoq, lib.List(callsCoq), lib.List(evCoq), lib.List(evFiles), lib.List(evCounts), lib.List(cntCoq), lib.List(logCoq), lib.List(runsCoq))
 		nontriv := len(files) >= 2
 		out.Add(coq, map[string]interface{}{"files": paths, "registry_natives": regNat, "calls": calls, "events": descEv, "counters": counts, "loader_calls": len(loaderLog)}, nontriv)
 		out.Count("files", lib.SizeBucket(len(files)))
@@ -641,6 +668,61 @@ func main() {
 			}
 		}
 	}
+	if profile == "cache" {
+		realFS(out, r)
+	}
 	out.Notes = append(out.Notes, "profile="+profile+"; pure path resolver (filepath.Join); identities through a JS Map of exports objects; thrown values compared by identity in the catching script")
 	out.Write(outPath)
+}
+
+// realFS: the default loader and path resolver on a real directory with symbolic links (a linked directory, a linked file, an
+// index.js that is a link). For the spellings the library canonicalises (directories, full file names) one file is one module.
+// (Extension probing through a link - './linkdir/real', './flink' - is outside: the unchanged library keys those by the
+// un-resolved name; see DESIGN.md.)
+func realFS(out *lib.Output, r *lib.Rand) {
+	T, err := os.MkdirTemp("", "verif-realfs")
+	if err != nil {
+		out.Notes = append(out.Notes, "real-directory phase skipped: "+err.Error())
+		return
+	}
+	defer os.RemoveAll(T)
+	if p, err := filepath.EvalSymlinks(T); err == nil {
+		T = p
+	}
+	os.MkdirAll(T+"/lib", 0o755)
+	os.MkdirAll(T+"/d", 0o755)
+	os.MkdirAll(T+"/pkg", 0o755)
+	os.WriteFile(T+"/lib/real.js", []byte("globalThis.__n = (globalThis.__n||0)+1; exports.x = {}"), 0o644)
+	os.WriteFile(T+"/lib/data.json", []byte(`{"a":1}`), 0o644)
+	if os.Symlink("../lib/real.js", T+"/d/index.js") != nil || os.Symlink("lib", T+"/linkdir") != nil || os.Symlink("lib/real.js", T+"/flink.js") != nil ||
+		os.Symlink("../lib/real.js", T+"/pkg/entry.js") != nil {
+		out.Notes = append(out.Notes, "real-directory phase skipped: cannot create symbolic links")
+		return
+	}
+	os.WriteFile(T+"/pkg/package.json", []byte(`{"main":"entry.js"}`), 0o644)
+	reqs := []string{"./d", "./lib/real.js", "./d/index.js", "./linkdir/real.js", "./flink.js", T + "/d", T + "/flink.js", "./lib/../d", "./pkg", "./pkg/entry.js", T + "/linkdir/real.js"}
+	runs := 0
+	for k := 0; k < 24; k++ {
+		vm := goja.New()
+		new(require.Registry).Enable(vm)
+		n := 2 + r.Intn(4)
+		var seq []string
+		for i := 0; i < n; i++ {
+			seq = append(seq, reqs[r.Intn(len(reqs))])
+		}
+		vm.Set("__seq", seq)
+		prg, _ := goja.Compile(T+"/main.js", `(function(){ var first = null, same = true; __seq.forEach(function(q){ var m = require(q); if (first === null) first = m; if (m !== first) same = false }); return [same, globalThis.__n] })()`, false)
+		v, err := vm.RunProgram(prg)
+		runs++
+		if err != nil {
+			out.Fail(-1, "realfs-require-failed", map[string]interface{}{"requests": seq, "err": err.Error()})
+			continue
+		}
+		res := v.Export().([]interface{})
+		if res[0] != true || fmt.Sprint(res[1]) != "1" {
+			out.Fail(-1, "realfs-one-file-two-modules", map[string]interface{}{"requests": seq, "identical": res[0], "evaluations": res[1],
+				"tree": "lib/real.js; d/index.js -> ../lib/real.js; linkdir -> lib; flink.js -> lib/real.js; pkg/package.json main entry.js -> ../lib/real.js"})
+		}
+	}
+	out.Count("real-directory", fmt.Sprintf("%d sequences", runs))
 }
